@@ -148,33 +148,34 @@ def job(j):
 
 # ------------------------------------------------------------------ transaction id: complete state space of the counter
 
-def tx_cycle(start):
-    """Walk the transaction counter from `start` until its state repeats; every id non-zero, != predecessor, MBAP
-    otherwise unchanged."""
+TX_PATTERNS = (('read',), ('read', 'write'), ('write', 'multi', 'read'), ('read', 'read', 'write', 'multi', 'multi'))
+
+
+def tx_cycle(start, pattern=('read',)):
+    """More than 65535 consecutive Modbus/TCP transmissions (command kinds cycling through `pattern`, built by one
+    protocol object): every id non-zero and different from its predecessor's, every frame parses, the rest of the MBAP
+    header of a kind never changes.  The state is what the wire shows (the id); `start` presets the library's counter
+    near the wrap where it is reachable as a module attribute (otherwise the walk simply starts from the initial state)."""
     world.reset(tx=start)
-    cmd = gp.ModbusTcpReadCommand(0xF7, 0x891C, 3)
-    base = None
-    seen = {}
+    p = make_protocol('tcp', 1, 0, False)
+    cmds = dict(read=p.read_command(0x891C, 3), write=p.write_command(47510, 7), multi=p.write_multi_command(47515, bytes(8)))
+    base = {}
     prev = None
     vio = []
     n = 0
     states = set()
-    while n < 70000:
-        st = gp._modbus_tcp_tx
-        if st in seen and n > 66000:
-            break
-        seen[st] = n
-        states.add(st)
-        req = cmd.request_bytes()
+    while n < 66000 + len(pattern):
+        kind = pattern[n % len(pattern)]
+        req = cmds[kind].request_bytes()
         n += 1
         tx = struct.unpack('>H', req[:2])[0]
-        if base is None:
-            base = req[2:]
+        states.add(tx)
+        base.setdefault(kind, req[2:])
         if tx == 0:
-            vio.append(('tx-id-nonzero', f'transmission {n} from state {st}: id 0'))
+            vio.append(('tx-id-nonzero', f'transmission {n}: id 0'))
         if prev is not None and tx == prev:
-            vio.append(('tx-id-changes', f'transmission {n}: id {tx} repeated'))
-        if req[2:] != base:
+            vio.append(('tx-id-changes', f'transmission {n} ({kind} after {pattern[(n - 2) % len(pattern)]}): id {tx} repeated'))
+        if req[2:] != base[kind]:
             vio.append(('mbap-otherwise-unchanged', f'transmission {n}'))
         try:
             wire.parse_tcp_request(req)
@@ -185,6 +186,26 @@ def tx_cycle(start):
             break
     world.reset()
     return n, len(states), vio
+
+
+def tx_histories():
+    """Every history of <= 5 transmissions over the three command kinds from a fresh process state."""
+    import itertools
+    vio = []
+    n = 0
+    for k in range(2, 6):
+        for hist in itertools.product(('read', 'write', 'multi'), repeat=k):
+            world.reset()
+            p = make_protocol('tcp', 1, 0, False)
+            ids = []
+            for kind in hist:
+                cmd = p.read_command(0x891C, 3) if kind == 'read' else p.write_command(47510, 7) if kind == 'write' else \
+                    p.write_multi_command(47515, bytes(8))
+                ids.append(struct.unpack('>H', cmd.request_bytes()[:2])[0])
+                n += 1
+            if 0 in ids or any(a == b for a, b in zip(ids, ids[1:])):
+                vio.append(('tx-id-changes', f'{list(hist)}: ids {ids}'))
+    return n, vio
 
 
 def run_silent_tcp(R):
@@ -290,12 +311,18 @@ def run(tier, seed, rep):
     ntx = 0
     nstates = 0
     for start in (0, 0xFFFD, 0xFFFE, 0x7FFF):
-        n, ns, vio = tx_cycle(start)
-        ntx += n
-        nstates = max(nstates, ns)
-        for clause, cause in vio[:3]:
-            rep.add(f'{clause}/from-state-{start:#x}' if start else f'{clause}/from-initial', clause,
-                    dict(part='tx', start=start), dict(cause=cause))
+        for pattern in (TX_PATTERNS if start in (0, 0xFFFD) else TX_PATTERNS[:2]):
+            n, ns, vio = tx_cycle(start, pattern)
+            ntx += n
+            nstates = max(nstates, ns)
+            for clause, cause in vio[:3]:
+                rep.add((f'{clause}/from-state-{start:#x}' if start else f'{clause}/from-initial') +
+                        ('' if pattern == ('read',) else '/mixed-kinds'), clause,
+                        dict(part='tx', start=start, pattern=list(pattern)), dict(cause=cause))
+    n, vio = tx_histories()
+    ntx += n
+    for clause, cause in vio[:1]:
+        rep.add(f'{clause}/short-histories-of-mixed-kinds', clause, dict(part='txhist'), dict(cause=cause, cases=len(vio)))
     for R in (0, 1, 3):
         vio, n = run_silent_tcp(R)
         ntx += n
@@ -309,7 +336,8 @@ def run(tier, seed, rep):
                     'every even multi-write length 2..246 x 3 contents x 4 registers, AA55 read/write/multi likewise; '
                     'every argument tuple is distinct, so distinct_nontrivial = number of requests built',
                transaction_counter=dict(transmissions=ntx, states_visited=nstates,
-                                        starts=['initial', '0xFFFD', '0xFFFE', '0x7FFF']),
+                                        starts=['initial', '0xFFFD', '0xFFFE', '0x7FFF'],
+                                        kind_patterns=[list(x) for x in TX_PATTERNS], short_histories='3^2..3^5'),
                exhaustive=True,
                samples=[dict(ctor='rtu-write', args=[0xF7, 47511, -2],
                              request=gp.ModbusRtuWriteCommand(0xF7, 47511, -2).request.hex())])
@@ -334,7 +362,10 @@ def replay(r):
         vio, k = run_overlap(r['callers'], r['steps'])
         return dict(transmissions=k, violations=vio)
     if r['part'] == 'tx':
-        n, ns, vio = tx_cycle(r['start'])
+        n, ns, vio = tx_cycle(r['start'], tuple(r.get('pattern', ('read',))))
         return dict(transmissions=n, states=ns, violations=vio)
+    if r['part'] == 'txhist':
+        n, vio = tx_histories()
+        return dict(transmissions=n, violations=vio[:5])
     vio, n = run_silent_tcp(r['R'])
     return dict(transmissions=n, violations=vio)
